@@ -761,6 +761,14 @@ def _apply_bound(E, c, st, env, module, where):
     for cl in c.requires:
         g = eval_clause(E, cl, st)
         E.oblige(st, g, 'call_pre', where, {'clause': cl})
+    if c.requires and not E.feasible(st):
+        # a precondition is false in EVERY caller state of this path: the call_pre obligation just recorded is the verdict
+        # (violated); there is no state to continue from (and this is not an inconsistency of the callee's postcondition)
+        return outs
+    if c.requires and not E.feasible(st):
+        # the caller violates the precondition on every input of this path: the call_pre obligations recorded above are judged
+        # on their own (violated); there is nothing to continue with
+        return outs
     pre = st.fork()
     st.snap_stack = getattr(st, 'snap_stack', [])
     # 2. exceptional outcomes
@@ -978,6 +986,8 @@ def _havoc_paths(E, st, paths):
                 st.assume(z3.Length(h.items.t) == z3.Length(zbytes(old)))
                 st.writes.append((v.oid, '<data>'))
                 continue
+            if v is None and path in st.frame.env:
+                continue        # an optional buffer argument that is None at this call (`output=None`): nothing to modify
             raise Unsupported('modifies target %s' % path)
         ref, fld = _eval_path_base(E, st, path)
         h = st.heap[ref.oid]
